@@ -41,6 +41,7 @@ removal depends on another removal's result; thorough: registrars of rules /
 ip-set entries / endpoint specs are the owner modules. Fourth round: C16.3
 rm_ip_set lets a failed removal escape, and every removal of the finish
 happens only while the network resource is still held.
+Sweep: C16.3 the finish steps tolerate exactly ENOENT and raise everything else, and the firewall plugin clean-up is called.
 Does NOT decide host state equality over interleavings, nor that passthrough
 hosts resolve to the same addresses at start and finish (the source's own
 FIXME).
